@@ -58,6 +58,12 @@ def build_model(kind):
         m3 = PartProcessor('M3', [b], 1)
         Sink('K', [m3], collect_parts=True)
         m1.schedule_failure  # noqa (initialised later)
+    elif kind == 'merge_default':
+        # default names (<Class>_<id>): anything that orders assets by name depends on the id offset
+        s1 = Source(None, PartGenerator('a'), 1)
+        s2 = Source(None, PartGenerator('b'), 1)
+        m = PartProcessor(None, [s1, s2], 1)
+        Sink('K', [m], collect_parts=True)
     elif kind == 'merge':
         s1 = Source('S1', PartGenerator('a'), 1)
         s2 = Source('S2', PartGenerator('b'), 1)
@@ -101,7 +107,8 @@ class _Fail:
 
 
 def normalise(system):
-    '''Recorded data + final counters with asset ids replaced by their order of first appearance.'''
+    '''Recorded data + final counters with asset ids replaced by their order of first appearance; default asset names
+    (<Class>_<id>) contain the id and are renumbered the same way (by registration order).'''
     ids = {}
 
     def nid(i):
@@ -109,19 +116,27 @@ def normalise(system):
             return None
         return ids.setdefault(i, len(ids))
 
+    names = {}
+    for k, a in enumerate(system._assets):
+        if a.name == f'{type(a).__name__}_{a.id}':
+            names[a.name] = f'{type(a).__name__}_#{k}'
+
+    def nn(x):
+        return names.get(x, x) if isinstance(x, str) else x
+
     out = []
     sd = system.simulation_data
     for lab in sorted(sd):
-        for name in sorted(sd[lab]):
+        for name in sorted(sd[lab], key=lambda x: str(nn(x))):
             for r in sd[lab][name]:
-                r = list(r)
+                r = [nn(x) for x in r]
                 if lab in ('received_part', 'produced_part', 'supplied_new_part', 'device_failure'):
                     r[1] = nid(r[1])
-                out.append((lab, name, tuple(r)))
+                out.append((lab, nn(name), tuple(r)))
     for a in system._assets:
-        row = [type(a).__name__, a.name, a.value]
+        row = [type(a).__name__, nn(a.name), a.value]
         if isinstance(a, Sink):
-            row += [a.received_parts_count, [(nid(p.id), p.name, [d.name for d in p.routing_history]) for p in a.collected_parts]]
+            row += [a.received_parts_count, [(nid(p.id), p.name, [nn(d.name) for d in p.routing_history]) for p in a.collected_parts]]
         if isinstance(a, Source):
             row += [a.produced_parts]
         if isinstance(a, PartProcessor):
